@@ -132,6 +132,17 @@ def scenarios(tier, rng):
                                  [{"ops": [{"op": "new"}, {"op": "solve", "k": 9}, {"op": "wait"}, {"op": "list", "dir": "@A"},
                                            {"op": "load_same", "dir": "@A", "step": 1 if kind == "PI" else 4}, {"op": "solve", "k": BIG},
                                            {"op": "wait"}]}]))
+    # restore with a RELATIVE new directory, then - from a process with another working directory - restore that new
+    # directory and continue: later saves must go to the directory itself (rebuilt "from the directory alone")
+    for kind, pname in (("VI", "forest"), ("RVI", "hendrix")):
+        pspec, full = P[pname]
+        out.append(base_scenario(f"{kind}-{pname}-relative-new-dir-then-other-cwd", kind, pname, pspec, full, 1, 2, False,
+                                 [{"ops": [{"op": "new"}, {"op": "solve", "k": 3}, {"op": "wait"}, {"op": "list", "dir": "@A"}]},
+                                  {"ops": [{"op": "list", "dir": "@A"}, restore_op(full, new_dir="@RELB"), {"op": "solve", "k": 2},
+                                           {"op": "wait"}, {"op": "list", "dir": "@B"}], "cwd": "cwd1"},
+                                  {"ops": [{"op": "list", "dir": "@B"}, dict(restore_op(full, expect_dir="@B"), dir="@B"),
+                                           {"op": "solve", "k": 2}, {"op": "wait"}, {"op": "list", "dir": "@B"}], "cwd": "cwd2"}],
+                                 rel_new_dir=True))
     # error paths
     pspec, full = P["tabular"]
     out.append(base_scenario("VI-tabular-restore-without-config", "VI", "tabular", pspec, False, 1, 2, False,
